@@ -466,4 +466,155 @@ theorem nl_run (len : α → Nat) (ops : List (Op α)) : ∀ (sp : Spec α) (w :
       · have := ih sp w h h2
         simpa [specRun, specStep, written, ho] using this
 
+/-! ### segments are closed only at the limit -/
+
+/-- every init of the history has `max_bytes ≥ M` -/
+def LowLimit (M : Nat) : List (Op α) → Prop
+  | [] => True
+  | .init mb _ :: ops => M ≤ mb ∧ LowLimit M ops
+  | _ :: ops => LowLimit M ops
+
+theorem specRotateIf_cases (len : α → Nat) (sp : Spec α) :
+    (specRotateIf len sp).segs = sp.segs ∨
+    ((specRotateIf len sp).segs = [] :: sp.segs ∧ sp.maxBytes ≤ fsize len (seg sp.segs 0)) := by
+  unfold specRotateIf; split
+  · right; exact ⟨rfl, by assumption⟩
+  · left; rfl
+
+theorem specRotateIf_maxBytes (len : α → Nat) (sp : Spec α) :
+    (specRotateIf len sp).maxBytes = sp.maxBytes := by
+  unfold specRotateIf; split <;> rfl
+
+/-- every segment closed during a run had reached the limit: all new segments except
+the newest hold at least `M` bytes -/
+theorem specRun_closed_full (len : α → Nat) (M : Nat) (ops : List (Op α)) : ∀ (sp : Spec α)
+    (a : List α) (T : List (List α)), sp.segs = a :: T → (sp.isOpen = true → M ≤ sp.maxBytes) →
+    LowLimit M ops →
+    ∃ news, (specRun len sp ops).segs = news ++ T ∧ news ≠ [] ∧
+      ∀ x ∈ news.drop 1, M ≤ fsize len x := by
+  induction ops with
+  | nil => intro sp a T h _ _; exact ⟨[a], by simp [specRun, h], by simp, by simp⟩
+  | cons op ops ih =>
+    intro sp a T h hmb hl
+    have key : ∃ a', ((specStep len sp op).segs = a' :: T ∨
+          ((specStep len sp op).segs = [] :: a' :: T ∧ M ≤ fsize len a')) ∧
+        ((specStep len sp op).isOpen = true → M ≤ (specStep len sp op).maxBytes) ∧
+        LowLimit M ops := by
+      cases op with
+      | close => exact ⟨a, Or.inl h, by simp [specStep], hl⟩
+      | init mb bc =>
+        obtain ⟨hM, hl'⟩ := hl
+        refine ⟨a, ?_, by simp [specStep, specRotateIf_maxBytes, hM], hl'⟩
+        rcases specRotateIf_cases len { sp with isOpen := true, maxBytes := mb } with e | ⟨e, hge⟩
+        · left; simp only [specStep]; rw [e]; exact h
+        · right; simp only [specStep]; rw [e]
+          refine ⟨by simp [h], ?_⟩
+          simp only [h, seg_cons_zero] at hge; omega
+      | write l =>
+        by_cases ho : sp.isOpen = true
+        · have hstep : specStep len sp (.write l) = specRotateIf len
+              { sp with segs := (seg sp.segs 0 ++ [l]) :: sp.segs.drop 1 } := by
+            simp only [specStep]; rw [if_pos ho]
+          refine ⟨a ++ [l], ?_, by rw [hstep, specRotateIf_isOpen, specRotateIf_maxBytes]; exact hmb, hl⟩
+          rw [hstep]
+          rcases specRotateIf_cases len { sp with segs := (seg sp.segs 0 ++ [l]) :: sp.segs.drop 1 }
+            with e | ⟨e, hge⟩
+          · left; rw [e]; simp [h]
+          · right; rw [e]
+            refine ⟨by simp [h], ?_⟩
+            have := hmb ho
+            simp only [h, seg_cons_zero] at hge; omega
+        · exact ⟨a, Or.inl (by simp [specStep, ho, h]), by simp [specStep, ho], hl⟩
+    obtain ⟨a', hs, hmb', hl'⟩ := key
+    rcases hs with hs | ⟨hs, hbig⟩
+    · obtain ⟨news, h1, h2, h3⟩ := ih _ a' T hs hmb' hl'
+      exact ⟨news, by simpa [specRun] using h1, h2, h3⟩
+    · obtain ⟨news, h1, h2, h3⟩ := ih _ [] (a' :: T) hs hmb' hl'
+      refine ⟨news ++ [a'], by simpa [specRun] using h1, by simp, ?_⟩
+      intro x hx
+      cases news with
+      | nil => exact absurd rfl h2
+      | cons n ns =>
+        simp only [List.cons_append, List.drop_one, List.tail_cons, List.mem_append,
+          List.mem_singleton] at hx h3
+        rcases hx with hx | rfl
+        · exact h3 x hx
+        · exact hbig
+
+/-- the `j`-th newest segment, for `1 ≤ j ≤ rotations`, was closed at the limit -/
+theorem seg_closed_full (len : α → Nat) (M : Nat) (ops : List (Op α)) (sp : Spec α)
+    (a : List α) (T : List (List α)) (h : sp.segs = a :: T) (ho : sp.isOpen = false)
+    (hl : LowLimit M ops) (j : Nat) (hj1 : 1 ≤ j) (hjr : j ≤ rotations len sp ops) :
+    M ≤ fsize len (seg (specRun len sp ops).segs j) := by
+  obtain ⟨news, h1, h2, _⟩ := specRun_head len ops sp a T h
+  obtain ⟨news', h1', _, h3'⟩ := specRun_closed_full len M ops sp a T h (by simp [ho]) hl
+  have : news = news' := List.append_cancel_right (h1.symm.trans h1')
+  subst this
+  have hlt : j < news.length := by omega
+  have hseg : seg (specRun len sp ops).segs j = news[j] := by
+    rw [h1, seg, List.getD_eq_getElem?_getD, List.getElem?_append_left hlt,
+      List.getElem?_eq_getElem hlt]; rfl
+  rw [hseg]
+  apply h3'
+  obtain ⟨j', rfl⟩ : ∃ j', j = j' + 1 := ⟨j - 1, by omega⟩
+  rw [List.drop_one]
+  cases news with
+  | nil => simp at hlt
+  | cons n ns => simp
+
+/-! ### files outside the rotation chain -/
+
+/-- every init of the history keeps at most `K` backups (`max(backup_count,1) ≤ K`) -/
+def AtMost (K : Nat) : List (Op α) → Prop
+  | [] => True
+  | .init _ bc :: ops => eff bc ≤ K ∧ AtMost K ops
+  | _ :: ops => AtMost K ops
+
+theorem rotate_untouched (h : RH) (fs : FS α) (j : Nat) (hl : fs.live.isSome)
+    (hj : eff h.backupCount < j) : bget (rotate h fs).2.bak j = bget fs.bak j := by
+  obtain ⟨c, hc⟩ := Option.isSome_iff_exists.mp hl
+  obtain ⟨_, _, h3⟩ := rotate_spec h fs c hc
+  rw [h3]
+  have : 1 ≤ eff h.backupCount := by simp [eff]; omega
+  grind
+
+/-- files above the largest configured backup index are never touched -/
+theorem untouched_run (len : α → Nat) (K j : Nat) (hj : K < j) (ops : List (Op α)) :
+    ∀ (s : St α), (s.h.isOpen = true → s.fs.live.isSome ∧ eff s.h.backupCount ≤ K) → AtMost K ops →
+    bget (run len s ops).fs.bak j = bget s.fs.bak j := by
+  induction ops with
+  | nil => intro s _ _; rfl
+  | cons op ops ih =>
+    intro s hs ha
+    cases op with
+    | close =>
+      rw [run, ih _ (by simp [step, close]) ha]; rfl
+    | init mb bc =>
+      obtain ⟨hb, ha'⟩ := ha
+      rw [run, ih _ ?_ ha']
+      · simp only [step, init]
+        split
+        · exact rotate_untouched _ _ j (by simp) (by simpa using Nat.lt_of_le_of_lt hb hj)
+        · rfl
+      · intro _
+        simp only [step, init]
+        split <;> simp [rotate, hb]
+    | write l =>
+      rw [run, ih _ ?_ ha]
+      · simp only [step, write]
+        by_cases ho : s.h.isOpen = true
+        · obtain ⟨_, hb⟩ := hs ho
+          simp only [ho, if_true]
+          split
+          · exact rotate_untouched _ _ j (by simp) (by simpa using Nat.lt_of_le_of_lt hb hj)
+          · rfl
+        · simp [ho]
+      · intro ho'
+        simp only [step, write] at ho' ⊢
+        by_cases ho : s.h.isOpen = true
+        · obtain ⟨_, hb⟩ := hs ho
+          simp only [ho, if_true]
+          split <;> simp [rotate, hb]
+        · simp [ho] at ho'
+
 end MgProof.C17
